@@ -362,6 +362,10 @@ pub fn execute<S: Scenario>(scn: &S, h: &[Action], trace: bool, run_epilogue: &d
     let mut fp = core_fingerprint(&w);
     fp.push('#');
     fp.push_str(&scn.fingerprint(&w, &x));
+    // the bounds are deviation budgets consumed along the history: two histories reaching the
+    // same world with different budgets left have different futures, so the budgets are state
+    let c = Counts::of(h);
+    fp.push_str(&format!("#b{},{},{},{}", c.ticks, c.drops, c.panics, c.ctls));
     let enabled = if divergence.is_none() { enabled_actions(scn, &w, &x, h) } else { vec![] };
     let witnesses = scn.witnesses(&w, &x, h);
     let outcome_sig = w
